@@ -3,6 +3,7 @@
 #![allow(dead_code, missing_docs)]
 use super::model::{NH, NN, NPK, PK_TAG};
 use super::spec::*;
+use super::vk::put;
 
 // =====================================================================================================
 // step-level reference (what each public API step must output), used by the wiring harnesses and the
@@ -22,10 +23,10 @@ pub fn reg_finish(pw: &[u8], blind: u8, evaluated: u8, stretch: impl FnOnce(&[u8
     let (_, cpk, _) = envelope_keys(&rpwd, env_nonce);
     let e = envelope(&rpwd, env_nonce, server_pk, id_s.unwrap_or(server_pk), id_u.unwrap_or(&cpk));
     let mut upload = [0u8; NPK + NH + ENV_LEN];
-    upload[0..NPK].copy_from_slice(&e.client_pk);
-    upload[NPK..NPK + NH].copy_from_slice(&mk);
-    upload[NPK + NH..NPK + NH + NN].copy_from_slice(env_nonce);
-    upload[NPK + NH + NN..].copy_from_slice(&e.auth_tag);
+    put(&mut upload[0..NPK], &e.client_pk);
+    put(&mut upload[NPK..NPK + NH], &mk);
+    put(&mut upload[NPK + NH..NPK + NH + NN], env_nonce);
+    put(&mut upload[NPK + NH + NN..], &e.auth_tag);
     RegFinish { upload, export_key: e.export_key, rpwd }
 }
 
